@@ -3,6 +3,7 @@ package nfs40sim
 import (
 	"encoding/hex"
 	"fmt"
+	"math"
 	"time"
 
 	nfsv4 "github.com/buildbarn/go-xdr/pkg/protocols/nfsv4"
@@ -25,16 +26,65 @@ type cOpen struct {
 
 type cOwner struct {
 	key   string
-	seq   uint32
+	seq   uint32 // seqid of the last request that advanced the owner's sequence
 	opens []*cOpen
 	last  *opSpec
 	busy  int
+
+	// The client chooses the seqid of the first request of a new
+	// open-owner (RFC 7530 section 9.1.7). zeroFirst: that first seqid
+	// is 0 (which no successor computation ever yields).
+	zeroFirst bool
+	started   bool
 }
 
 type cLockOwner struct {
 	key  string
 	seq  uint32
 	last *opSpec
+
+	zeroFirst bool
+	started   bool
+}
+
+// nxt is the seqid of the owner's next request.
+func (o *cOwner) nxt() uint32 {
+	if o.zeroFirst && !o.started {
+		return 0
+	}
+	return nextSeq(o.seq)
+}
+
+func (o *cLockOwner) nxt() uint32 {
+	if o.zeroFirst && !o.started {
+		return 0
+	}
+	return nextSeq(o.seq)
+}
+
+// initialSeqids are the "last used" values an owner starts from: the
+// first request carries the successor. Values next to 2^32 make the
+// sequence wrap around (and skip 0, as nextSeqID documents) within a
+// short case.
+var initialSeqids = []uint32{0, 0, 0, 1, math.MaxUint32 - 3, math.MaxUint32 - 2, math.MaxUint32 - 1, math.MaxUint32}
+
+// drawInitialSeqids lets the client pick where the seqid sequences of
+// its owners start.
+func (w *world) drawInitialSeqids(c *cClient) {
+	for _, o := range c.owners {
+		if pick(w, "ooSeqStart", []string{"drawn", "zero"}) == "zero" && w.pct(25, "ooZeroFirst") {
+			o.zeroFirst = true
+			continue
+		}
+		o.seq = pick(w, "ooSeq", initialSeqids)
+	}
+	for _, lo := range c.lockOwner {
+		if pick(w, "loSeqStart", []string{"drawn", "zero"}) == "zero" && w.pct(25, "loZeroFirst") {
+			lo.zeroFirst = true
+			continue
+		}
+		lo.seq = pick(w, "loSeq", initialSeqids)
+	}
 }
 
 type cClient struct {
@@ -54,8 +104,11 @@ type cClient struct {
 func newClient(i int) *cClient {
 	c := &cClient{idx: i, longID: fmt.Sprintf("client-%d", i), verifier: uint64(100 * (i + 1))}
 	for k := 0; k < 2; k++ {
-		c.owners = append(c.owners, &cOwner{key: fmt.Sprintf("oo%d.%d", i, k)})
-		c.lockOwner = append(c.lockOwner, &cLockOwner{key: fmt.Sprintf("lo%d.%d", i, k)})
+		// Every client uses the same owner byte strings: owners are
+		// scoped by client ID (RFC 7530 section 9.1.1), so equal bytes
+		// under different clients are different owners.
+		c.owners = append(c.owners, &cOwner{key: fmt.Sprintf("oo%d", k)})
+		c.lockOwner = append(c.lockOwner, &cLockOwner{key: fmt.Sprintf("lo%d", k)})
 	}
 	return c
 }
@@ -130,7 +183,7 @@ func (c *cClient) dropOpen(other string) {
 // learn updates the client's knowledge from a reply, following RFC 7530
 // section 9.1.7 for seqids.
 func (c *cClient) learn(w *world, op *opSpec, res *nfsv4.Compound4res, inf *inflight) {
-	if c.idx >= len(w.clients) || w.clients[c.idx] != c {
+	if c != w.observer && (c.idx >= len(w.clients) || w.clients[c.idx] != c) {
 		return // ghost client of the final probe
 	}
 	mi := mainIndex(op)
@@ -146,11 +199,13 @@ func (c *cClient) learn(w *world, op *opSpec, res *nfsv4.Compound4res, inf *infl
 	if o := c.owner(op.Owner); o != nil && (op.Kind == kOpen || op.Kind == kOpenConfirm || op.Kind == kOpenDowngrade || op.Kind == kClose || (op.Kind == kLock && op.NewLO)) {
 		if seqidAdvances(st) {
 			o.seq = op.Seq
+			o.started = true
 		}
 	}
 	if lo := c.lockOwnerByKey(op.LockOwner); lo != nil && (op.Kind == kLock || op.Kind == kLocku) {
 		if st == ok || st == nfsv4.NFS4ERR_DENIED || (normal && seqidAdvances(st)) {
 			lo.seq = op.LockSeq
+			lo.started = true
 		}
 	}
 	if st == nfsv4.NFS4ERR_STALE_CLIENTID && normal {
@@ -309,16 +364,41 @@ type profile struct {
 	warmPct    int
 	confirmPct int
 	warmOpen   bool
+	// inflightRetxPct: chance that a retransmission duplicates a request
+	// that is still in flight, if there is one.
+	inflightRetxPct int
+	// dupParkedPct: chance that an OPEN that got parked is retransmitted
+	// right away (1-3 times).
+	dupParkedPct int
+	// faultPct: chance that an OPEN or an I/O request carries a
+	// one-shot fault of the file system below the server.
+	faultPct int
+	// scanLocks: after every request that may release byte-range locks
+	// the whole lock table of the files is read back through LOCKT.
+	scanLocks  bool
 	nontrivial func(ev, labels map[string]int) bool
 }
 
 var fileNames = []string{"a", "b", "c"}
+
+var faultStatuses = []string{"io", "io", "access", "rofs", "nxio"}
 
 func (w *world) pct(p int, label string) bool {
 	if p <= 0 {
 		return false
 	}
 	return rapid.IntRange(0, 99).Draw(w.rt, label) < p
+}
+
+// pctRare is pct for events that must stay rare: rapid's integers lean
+// towards small values, so "drawn value below p" comes true far more
+// often than p percent of the time; the upper end of the range does not
+// have that pull (and shrinking moves away from it).
+func (w *world) pctRare(p int, label string) bool {
+	if p <= 0 {
+		return false
+	}
+	return rapid.IntRange(0, 99).Draw(w.rt, label) >= 100-p
 }
 
 func pick[T any](w *world, label string, l []T) T {
@@ -335,9 +415,16 @@ func (w *world) drawRange() (uint64, uint64, string) {
 	off := cut(i)
 	if j == nUnits {
 		if rapid.Bool().Draw(w.rt, "allOnes") {
+			w.label("range_to_eof_length_all_ones")
 			return off, ^uint64(0), "to_eof_all_ones"
 		}
+		// offset+length = 2^64-1 exactly: the largest end a finite
+		// length can name.
+		w.label("range_end_2_64_minus_1_finite_length")
 		return off, ^uint64(0) - off, "to_max_offset"
+	}
+	if j == nUnits-1 {
+		w.label("range_end_2_64_minus_2")
 	}
 	return off, cut(j) - cut(i), ""
 }
@@ -395,9 +482,18 @@ func (w *world) step() {
 			continue
 		}
 		if oo := w.targetOO(op); oo != nil && oo.txn && oo.waiters > 0 {
-			w.label("excluded_second_waiter_on_one_owner")
-			act = kRenew
-			continue
+			// Several requests may wait behind the transaction of one
+			// open-owner as long as all of them are identical
+			// retransmissions of the same request: whatever order they
+			// are woken up in, each gets that request's reply. Waiters
+			// that differ in content are excluded, because which of
+			// them the server serves first is up to the scheduler.
+			if !w.allIdenticalWaiters(oo, op) {
+				w.label("excluded_second_waiter_with_other_content")
+				act = kRenew
+				continue
+			}
+			w.label("second_identical_duplicate_waits_behind_original")
 		}
 		if !w.prof.sharedLO && w.wouldShareLockOwner(op) {
 			// Soundness: one lock-owner is used with at most one open
@@ -413,8 +509,58 @@ func (w *world) step() {
 		w.noteSent(c, op)
 		w.issue(c, op)
 		w.followUp(c, op)
+		w.duplicateParked(c, op)
 		return
 	}
+}
+
+// duplicateParked: a client whose OPEN is taking long (parked inside
+// VirtualOpenChild) retransmits it, possibly several times, before the
+// reply arrives.
+func (w *world) duplicateParked(c *cClient, op *opSpec) {
+	if op.Kind != kOpen || op.Park == "" || op.Retx != 0 || !w.pct(w.prof.dupParkedPct, "dupParked") {
+		return
+	}
+	var orig *flight
+	for _, fl := range w.flights {
+		if fl.op == op && fl.ctl.where() != "" {
+			orig = fl
+		}
+	}
+	if orig == nil {
+		return // it did not get as far as the park point
+	}
+	n := rapid.IntRange(1, 3).Draw(w.rt, "duplicates")
+	for i := 0; i < n && len(w.flights) < 5; i++ {
+		d := *op
+		d.Out, d.Park, d.N = "", "", 0
+		d.Fault, d.FaultSt = "", ""
+		d.Retx, d.Note = op.N, "retransmission"
+		if i > 0 {
+			w.label("second_identical_duplicate_waits_behind_original")
+		}
+		w.issue(c, &d)
+	}
+	if w.pct(50, "releaseAfterDuplicates") {
+		w.release(orig)
+	}
+}
+
+// allIdenticalWaiters reports whether op and every request already
+// waiting behind the transaction of oo are unaltered retransmissions of
+// one and the same request.
+func (w *world) allIdenticalWaiters(oo *mOO, op *opSpec) bool {
+	if op.Retx == 0 || op.Note != "retransmission" {
+		return false
+	}
+	for _, x := range w.flights {
+		if x.inf != nil && x.inf.waitOn == oo {
+			if x.op.Retx != op.Retx || x.op.Note != "retransmission" {
+				return false
+			}
+		}
+	}
+	return true
 }
 
 // followUp is what a protocol-following client does right after an OPEN
@@ -429,7 +575,7 @@ func (w *world) followUp(c *cClient, op *opSpec) {
 	}
 	for _, co := range o.opens {
 		if co.unconf && co.name == op.Name && w.pct(w.prof.confirmPct, "autoConfirm") {
-			cf := &opSpec{Kind: kOpenConfirm, FH: co.fh, Owner: o.key, Seq: nextSeq(o.seq), Stateid: co.sid}
+			cf := &opSpec{Kind: kOpenConfirm, FH: co.fh, Owner: o.key, Seq: o.nxt(), Stateid: co.sid}
 			w.noteSent(c, cf)
 			w.issue(c, cf)
 			return
@@ -586,7 +732,7 @@ func (w *world) genOp(c *cClient, kind string) *opSpec {
 			return nil
 		}
 		o := pick(w, "owner", free)
-		op := &opSpec{Kind: kOpen, ClientID: c.useCID(), FH: "root", Owner: o.key, Seq: nextSeq(o.seq)}
+		op := &opSpec{Kind: kOpen, ClientID: c.useCID(), FH: "root", Owner: o.key, Seq: o.nxt()}
 		op.Name = pick(w, "name", fileNames)
 		op.Access = uint32(pick(w, "access", []int{1, 2, 3, 3}))
 		op.How = pick(w, "how", []string{"nocreate", "unchecked", "unchecked", "unchecked", "unchecked", "unchecked", "unchecked_trunc", "unchecked_size3", "guarded", "guarded_size3", "exclusive"})
@@ -617,6 +763,14 @@ func (w *world) genOp(c *cClient, kind string) *opSpec {
 				op.FH = fh
 			}
 			op.Stateid = sidAnonymous
+		}
+		if w.pctRare(w.prof.faultPct, "fault") {
+			if op.Claim == "" {
+				op.Fault = pick(w, "faultAt", []string{faultDirBefore, faultDirAfter, faultDirAfter, faultAlloc, faultOpenSelf})
+			} else {
+				op.Fault = faultOpenSelf
+			}
+			op.FaultSt = pick(w, "faultSt", faultStatuses)
 		}
 		if dev {
 			switch d := pick(w, "dev", []string{"seq_future", "seq_old", "cid", "fh_none", "fh_file", "fh_root_by_handle", "name_empty", "name_dotdot", "access_invalid", "deny_read", "deny_invalid"}); d {
@@ -656,7 +810,7 @@ func (w *world) genOp(c *cClient, kind string) *opSpec {
 		if co == nil {
 			return nil
 		}
-		op := &opSpec{Kind: kind, FH: co.fh, Owner: o.key, Seq: nextSeq(o.seq), Stateid: co.sid}
+		op := &opSpec{Kind: kind, FH: co.fh, Owner: o.key, Seq: o.nxt(), Stateid: co.sid}
 		if kind == kOpenDowngrade {
 			op.Access = uint32(pick(w, "access", []int{1, 2, 3}))
 			if !dev && op.Access&^co.access != 0 {
@@ -676,7 +830,7 @@ func (w *world) genOp(c *cClient, kind string) *opSpec {
 		}
 		lo := c.lockOwnerByKey(lok)
 		off, length, _ := w.drawRange()
-		op := &opSpec{Kind: kLocku, FH: co.fh, LockOwner: lok, LockSeq: nextSeq(lo.seq), Stateid: co.locks[lok], LockType: int32(pick(w, "lt", []int{1, 2})), Offset: off, Length: length}
+		op := &opSpec{Kind: kLocku, FH: co.fh, LockOwner: lok, LockSeq: lo.nxt(), Stateid: co.locks[lok], LockType: int32(pick(w, "lt", []int{1, 2})), Offset: off, Length: length}
 		if dev {
 			if pick(w, "devkind", []string{"state", "range"}) == "range" {
 				w.devRange(op)
@@ -832,11 +986,27 @@ func (w *world) devCID(c *cClient, op *opSpec, field *uint64) {
 }
 
 func (w *world) devRange(op *opSpec) {
-	switch d := pick(w, "rangeDev", []string{"length_zero", "range_overflow", "locktype_invalid"}); d {
+	// High offsets: the 16 highest units of the universe.
+	hi := cut(rapid.IntRange(17, nUnits-1).Draw(w.rt, "hiUnit"))
+	switch d := pick(w, "rangeDev", []string{"length_zero", "length_zero_high_offset", "range_overflow", "range_end_2_64", "range_end_2_64_plus", "range_overflow_huge_length", "range_offset_max_length_1", "locktype_invalid"}); d {
 	case "length_zero":
 		op.Length, op.Note = 0, d
+	case "length_zero_high_offset":
+		op.Offset, op.Length, op.Note = hi, 0, d
 	case "range_overflow":
 		op.Offset, op.Length, op.Note = ^uint64(0)-3, 5, d
+	case "range_end_2_64":
+		// offset+length = 2^64: one more than a finite length may reach.
+		op.Offset, op.Length, op.Note = hi, ^uint64(0)-hi+1, d
+	case "range_end_2_64_plus":
+		op.Offset, op.Length, op.Note = hi, ^uint64(0)-hi+1+uint64(rapid.IntRange(1, 3).Draw(w.rt, "beyond")), d
+	case "range_overflow_huge_length":
+		// length = 2^64-2 (not the all-ones "to end of file" value)
+		// from an offset of at least 2.
+		op.Offset, op.Length, op.Note = uint64(rapid.IntRange(2, 15).Draw(w.rt, "lowOff")), ^uint64(0)-1, d
+	case "range_offset_max_length_1":
+		// The byte at offset 2^64-1 by a finite length: 2^64-1+1 overflows.
+		op.Offset, op.Length, op.Note = ^uint64(0), 1, d
 	case "locktype_invalid":
 		op.LockType, op.Note = int32(pick(w, "lt", []int{0, 5, -1})), d
 	}
@@ -921,7 +1091,7 @@ func (w *world) genLock(c *cClient, dev bool) *opSpec {
 	// Existing lock state?
 	if co, lok := w.pickLock(c); co != nil && w.pct(60, "existing") {
 		lo := c.lockOwnerByKey(lok)
-		op := &opSpec{Kind: kLock, FH: co.fh, NewLO: false, LockOwner: lok, LockSeq: nextSeq(lo.seq), Stateid: co.locks[lok], LockType: lt, Offset: off, Length: length}
+		op := &opSpec{Kind: kLock, FH: co.fh, NewLO: false, LockOwner: lok, LockSeq: lo.nxt(), Stateid: co.locks[lok], LockType: lt, Offset: off, Length: length}
 		if dev {
 			if pick(w, "devkind", []string{"state", "range"}) == "range" {
 				w.devRange(op)
@@ -975,7 +1145,7 @@ func (w *world) genLock(c *cClient, dev bool) *opSpec {
 			}
 		}
 	}
-	op := &opSpec{Kind: kLock, FH: co.fh, NewLO: true, Owner: o.key, Seq: nextSeq(o.seq), Stateid: co.sid, LockOwner: lo.key, LockCID: c.useCID(), LockSeq: nextSeq(lo.seq), LockType: lt, Offset: off, Length: length}
+	op := &opSpec{Kind: kLock, FH: co.fh, NewLO: true, Owner: o.key, Seq: o.nxt(), Stateid: co.sid, LockOwner: lo.key, LockCID: c.useCID(), LockSeq: lo.nxt(), LockType: lt, Offset: off, Length: length}
 	if _, have := co.locks[lo.key]; have {
 		op.Note = "new_lock_owner_flag_with_existing_state"
 	} else if dev {
@@ -1013,6 +1183,10 @@ func (w *world) genIO(c *cClient, kind string, dev bool) *opSpec {
 	}
 	if w.pct(w.prof.parkPct, "park") {
 		op.Park = parkIO
+	}
+	if w.pctRare(w.prof.faultPct, "fault") {
+		op.Fault = pick(w, "faultAt", []string{faultIO, faultIO, faultOpenSelf})
+		op.FaultSt = pick(w, "faultSt", faultStatuses)
 	}
 	opens := c.allOpens()
 	mode := pick(w, "sidKind", []string{"open", "open", "lock", "special"})
@@ -1087,8 +1261,23 @@ func (w *world) genRetx(c *cClient, mode string) *opSpec {
 		return nil
 	}
 	orig := pick(w, "orig", cands)
+	if mode == "same" {
+		// Prefer the request of an owner whose transaction is still in
+		// progress (parked inside VirtualOpenChild): the duplicate
+		// then has to wait for the original and gets its reply.
+		var busy []*opSpec
+		for _, o := range c.owners {
+			if o.last != nil && o.busy > 0 {
+				busy = append(busy, o.last)
+			}
+		}
+		if len(busy) > 0 && w.pct(w.prof.inflightRetxPct, "preferInflight") {
+			orig = pick(w, "origInflight", busy)
+		}
+	}
 	op := *orig
 	op.Out, op.Park, op.N = "", "", 0
+	op.Fault, op.FaultSt = "", "" // faults belong to the environment, not to the request
 	op.Retx = orig.N
 	op.Note = "retransmission"
 	switch mode {
